@@ -7,8 +7,8 @@ import props.reclcommon as rc
 THEOREM_NOTES = {
     'scope': 'the theorems are about an executable model of the per-thread slot pool (free list threaded through the slots, hint, static / dynamic blocks) and of the guard_ptr operations on top of it, for hazard_pointer and hazard_eras, for every K >= 1, every number of guards and every operation sequence: invariant (free list = exactly the unheld slots, distinct slots per guard, held slot contains the guard object, a guard has a slot iff its pointer is non-null), an acquisition throws iff K slots are held by guards with non-null pointers, a throw leaves all other guards unchanged and the asking guard empty, reset / move / copy slot accounting, no leak, dynamic strategy never throws. Tie: differential run of random operation sequences on the model (vm_compute inside Coq) and on the real guard_ptrs (slot indices, protected sets, free lists compared line by line). The multi-threaded part (scans seeing the protected objects) is covered by the search',
 }
-SFX_QUICK = ['_hp', '_hp1', '_hpd', '_he', '_he1']
-SFX_ALL = SFX_QUICK + ['_hp2', '_hed']
+SFX_QUICK = ['_hp', '_hp1', '_hpd', '_he', '_he1', '_hed']
+SFX_ALL = SFX_QUICK + ['_hp2']
 def harnesses(tier):
     return rc.harnesses('thorough', only=(SFX_ALL if tier == 'thorough' else SFX_QUICK))
 HARNESSES = harnesses('quick')
@@ -82,6 +82,18 @@ def run(ctx):
         jobs.append((cfg, [['copy 1 2', 'hold 0 0', 'deref 0', 'drop 0', 'hold 1 0', 'deref 0']], 'opseq', 1, ctx['seed'], ()))
         jobs.append((cfg, [['hold 0 0', 'copy 0 1', 'repl 0', 'holdeq 0 1', 'deref 0', 'drop 1', 'deref 0', 'drop 0', 'hold 0 1']], 'opseq', 1, ctx['seed'], ()))
         jobs.append((cfg, [['hold 0 0', 'copy 0 1', 'repl 1', 'holdeq 1 1', 'drop 1', 'deref 0', 'repl 0', 'deref 0']], 'opseq', 1, ctx['seed'], ()))
+        if K is None:
+            # dynamic strategy: any number of guards, all of them protecting - the pool grows block by block (second, third ... extra block),
+            # every guard is taken in a different era / on a different object, everything is then retired and every guard dereferenced
+            cfgd = dict(cfg, slots='14')
+            for ng in (3, 5, 9, 14):
+                acq = []
+                for i in range(ng):
+                    acq += ['repl %d' % (i % 2), 'hold %d %d' % (i % 2, i)]
+                chk = ['repl 0', 'repl 1'] + ['deref %d' % i for i in range(ng)]
+                jobs.append((cfgd, [acq + chk + ['drop %d' % i for i in range(0, ng, 2)] + chk[:2] + ['deref %d' % i for i in range(1, ng, 2)] + ['hold 0 0', 'repl 0', 'deref 0']], 'opseq', 1, ctx['seed'], ()))
+            jobs.append((cfgd, [slot_program(rng, 30, 14)], 'opseq', 1, ctx['seed'], ()))
+            jobs.append((cfgd, [slot_program(rng, 30, 14)], 'opseq', 1, ctx['seed'] + 1, ()))
         if K:
             # exhaustion in the middle of acquire_if_equal / acquire / copy on a guard that SHARES its slot (hazard eras) or owns one,
             # with the other K-1 slots held by guards of other eras: the throwing guard must end up empty, every other guard keeps protecting
